@@ -311,6 +311,17 @@ def c07(tier, sc):
         rep.violation("trace of the real code rejected by the specification (%s) on %r ctx=%d at token %d: spec %s impl %s" % (
             rj["reject"], show(rj["in"]), rj["ctx"], rj["ntok"], json.dumps(rj["spec"]), json.dumps(rj["impl"])),
             {"kind": "xss.conf", "in": rj["in"], "ctx": rj["ctx"], "spec": rj["spec"], "impl": rj["impl"], "at": rj["ntok"]})
+    # IsXSS = OR of the five context verdicts, on the direction-A inputs too (their per-context verdicts
+    # were just validated against the specification)
+    res = api_all(sc, vh, inputs)
+    nor2 = 0
+    for x, r in zip(inputs, res):
+        if bad_result(r):
+            continue
+        nor2 += 1
+        if r["xss"] != any(r["ctx"]):
+            rep.violation("IsXSS(%r) = %s but the five contexts give %s" % (show(x), r["xss"], r["ctx"]), {"kind": "xss.or", "a": x})
+    rep.part("or_of_contexts", inputs_A=nor2)
     if not xss_canary(sc, d, vh):
         rep.notes.append("canary base trace itself rejected (see violations)")
     for x in beh[1000:1003] + [{"in": i} for i in inputs[50:53]]:
@@ -1789,6 +1800,16 @@ def c09(tier, sc):
     for o in x_open:
         for u in xunits:
             fams.append({"api": "xss", "pre": o, "rep": u, "tail": []})
+        for a in sig:                      # every byte pair of the HTML-significant alphabet
+            for b2 in sig:
+                if a != b2:
+                    fams.append({"api": "xss", "pre": o, "rep": [a, b2], "tail": []})
+    r0 = vgen.rng("c09")
+    pairs = [(a, b2) for a in sq_units for b2 in sq_units if a != b2]
+    for a, b2 in (pairs if big else r0.sample(pairs, 500)):
+        fams.append({"api": "sqli", "pre": [], "rep": S(a) + S(b2), "tail": []})
+        if big:
+            fams.append({"api": "sqli", "pre": S("'"), "rep": S(a) + S(b2), "tail": []})
     seen = set()
     uniq = []
     for f in fams:
